@@ -59,6 +59,9 @@ func NewController(addr api.WarehouseLocation) (warehouse.BlobstoreController, e
 	default:
 		return whCtrl, Errorf(rio.ErrUsage, "unsupported scheme in warehouse addr: %q (valid options are 'http', 'ca+http', 'https', or 'ca+https')", u.Scheme)
 	}
+	if u.Host == "" {
+		return whCtrl, Errorf(rio.ErrUsage, "malformed warehouse addr %q: no host", addr)
+	}
 	whCtrl.baseUrl = u
 
 	// We skip checking that the warehouse exists.
